@@ -80,7 +80,7 @@ theorem rec_items (kind : Kind) (hk : kind.isRec = true) (tid a : Nat) (ha : a â
         simp only
         have : popCtx (pushCtx t kind a) a = t := by
           simp [popCtx, pushCtx, ha]
-        rw [this]
+        rw [this, if_neg ha]
       rw [e1]
       simp only
       rw [ih t h1 h2 h3]
